@@ -11,7 +11,6 @@ NA = {
  "C18": "idempotence is a fixed point of a 9-phase text pipeline: a runtime quantity with no structural necessary condition.",
  "C20": "extract variable/function preserve behaviour: free-variable and insertion-point computations over all programs; value-level property.",
  "C22": "safety of --fix edits is a property of byte ranges computed at run time from positions.",
- "C27": "eval-up-to reports the run-time value: agreement between two executions.",
  "C32": "prelude functions are Garden source (__prelude.gdn), which none of the Rust-level analyses read; the Rust built-ins they call are inside C02.",
  "C33": "print/parse round trip of all syntax trees needs a printer and tree equality over generated inputs; parser-shape clauses are claimed under C01/C03 instead.",
 }
@@ -143,6 +142,11 @@ chk("C21", "MIR operand provenance and region rules on the PreludeDbg arm of eva
     "Structural necessary conditions of the wrap-in-dbg half only: `dbg(e)` evaluates to the value of `e`, its printing goes to standard error in every output mode, and the edit wraps exactly the selected expression's byte range. The add-type-annotation half and the equality of the two programs' outputs are not decided.",
     "Trusted: rustc MIR; `dbg` is bound to PreludeDbg; the call machinery evaluates a built-in's argument once (C02/C07). Was 'not applicable' in the plan; claimed for these clauses only.",
     "DESIGN.md section 4 C21")
+
+chk("C27", "MIR dominance and operand provenance: STOP-AFTER-VALUE (the early return of the interpreter loop is dominated by the step, by the true edge of stop_at_expr_id == stepped expression id, and by the true edge of done_subexpressions(); the value is evalled_values.last()); OBSERVED-USED (set_observed_expr_value_used dominates every stop-id store, same id); INNERMOST (reversed walk of the ids at the offset); STOP-ID-SCOPED (every Some store to stop_at_expr_id in eval_up_to is followed by a None store on every path to a return)",
+    "Structural necessary conditions of eval-up-to reporting the observed expression's own, completed value, decided on the code for all programs and positions. That the reported value equals the value of a plain run (argument reuse, loops, the for-in special case) and when an error is reported are not decided.",
+    "Trusted: rustc MIR; find_item_at lists enclosing items outermost first. Was 'not applicable' in the plan; claimed for these clauses only.",
+    "DESIGN.md section 4 C27")
 
 ENGINES = [
  {"name": "gfacts", "path": "tools/gfacts", "kind_free_text": "rustc_private driver (nightly) dumping the type-checked MIR (CFG, resolved callees, asserts, places with field names) of every function of the garden crate as JSON; run as RUSTC_WORKSPACE_WRAPPER under cargo +nightly check on /repo's current tree"},
